@@ -451,7 +451,12 @@ func (d *driver) run() int {
 		queue = append(queue, Item{ID: nextID, Cfg: i, Bound: st.level, Split: sp, Deadline: deadline})
 		nextID++
 	}
-	for i := range d.cfgs {
+	// The queue is a stack: a configuration's next level is taken up as soon
+	// as its previous one completed. Configurations are listed simplest first,
+	// so they are pushed in reverse: the simplest ones run to their full bound
+	// first (the first counterexample found is the easiest to explain, and a
+	// violation in a cheap configuration is not kept waiting by expensive ones).
+	for i := len(d.cfgs) - 1; i >= 0; i-- {
 		if states[i] != nil {
 			enqueueLevel(i)
 		}
@@ -537,6 +542,7 @@ func (d *driver) run() int {
 		samples                                                                          []string
 		maxEn, maxThreads                                                                int
 		inflight                                                                         int
+		stopping                                                                         bool
 	)
 	for len(queue) > 0 || inflight > 0 {
 		var send chan Item
@@ -583,12 +589,19 @@ func (d *driver) run() int {
 				samples = append(samples, r.Sample)
 			}
 			violations = append(violations, r.Violations...)
+			if len(violations) > 0 && !stopping {
+				// a violation (not a known finding) was found: work in flight is
+				// finished, nothing new is started - the verdict is in, and a
+				// defective tree can make the remaining space arbitrarily large
+				stopping = true
+				queue = nil
+			}
 			st.cur.Executions += r.Execs
 			if r.Incomplete || len(r.Violations) > 0 {
 				st.failed = true
 			}
 			st.pending--
-			if !st.failed {
+			if !st.failed && !stopping {
 				for _, c := range r.Children {
 					c.ID = nextID
 					nextID++
@@ -601,7 +614,7 @@ func (d *driver) run() int {
 				st.levels = append(st.levels, st.cur)
 				if !st.failed {
 					st.completed = st.level
-					if st.level < boundOf(r.Cfg) && (deadline == 0 || time.Now().UnixMilli() < deadline) {
+					if !stopping && st.level < boundOf(r.Cfg) && (deadline == 0 || time.Now().UnixMilli() < deadline) {
 						st.level++
 						enqueueLevel(r.Cfg)
 					}
